@@ -27,6 +27,7 @@ pub fn template(name: &str) -> &'static str {
         "WW" => "{wide_msg}{wide_bar}{spinner:>3}",
         "WnM" => "{wide_bar} {pos}/{len}\n{msg}\n{spinner}",          // a wide element on a line that is not the last
         "MnW" => "{msg}\n\n{prefix}{wide_msg}|\n{bar:3}",
+        "E" => "{eta} {eta_precise} {duration} {duration_precise} {per_sec} {elapsed} {elapsed_precise} {bytes_per_sec}|{spinner}",     // every time / rate key
         "L" => "{msg:300}|{spinner:^600}|{bar:260}|{prefix:>257}",     // fields wider than any fixed buffer of blanks
         "bad" => "{:",
         _ => "{spinner} {bar} {msg}",
@@ -101,6 +102,31 @@ fn exec(w: &mut World, op: &Value) -> (String, String) {
                 Ok(pb) => { w.bar = Some((pb, spy)); ("ok".into(), String::new()) }
                 Err(e) => ("panic".into(), panic_msg(e)),
             }
+        }
+        // a bar whose rate is far below one step per second under a length of u64::MAX (virtual clock: two seconds pass before the only step):
+        // the estimates (eta, duration) are astronomically large and every time key must still render
+        "slow" => {
+            if let Some(b) = w.bar.take() { let _ = catch_unwind(AssertUnwindSafe(move || drop(b))); }
+            let style = match w.style.as_ref() { Some(s) => s.clone(), None => return ("skip".into(), String::new()) };
+            let spy = Spy::new(200, 50);
+            let sp = spy.clone();
+            crate::clock::enable();
+            let r = catch_unwind(AssertUnwindSafe(move || {
+                let pb = ProgressBar::with_draw_target(Some(u64::MAX), ProgressDrawTarget::term_like(Box::new(sp)));
+                pb.set_style(style);
+                crate::clock::advance(2_000_000_000);
+                pb.inc(1);
+                crate::clock::advance(5_000_000);
+                pb.tick();
+                let _ = (pb.eta(), pb.duration(), pb.per_sec(), pb.elapsed());
+                crate::clock::advance(600_000_000_000);          // ten minutes without progress
+                pb.tick();
+                let _ = (pb.eta(), pb.duration(), pb.per_sec());
+                pb.abandon();
+                drop(pb);
+            }));
+            crate::clock::VIRTUAL.store(false, std::sync::atomic::Ordering::SeqCst);
+            match r { Ok(()) => ("ok".into(), String::new()), Err(e) => ("panic".into(), panic_msg(e)) }
         }
         "force_draw" => onbar!(|pb: &ProgressBar, _: &Spy| pb.force_draw()),
         "ticks" => { let k = op["k"].as_u64().unwrap_or(1); onbar!(|pb: &ProgressBar, _: &Spy| for _ in 0..k { pb.tick(); }) }
